@@ -10,6 +10,80 @@ package proxy
 // framework's shared sentinels themselves (session.write returns
 // statConnClosed by pointer), so nothing is known about them here.
 //@ func (*proxy).call
-//@   property C15
+//@   property C15 C19
+//@   flags safety libframe
+//@   requires @C19 p.callForwarder != nil && ctx != nil
+//@   ensures[forwarded-exactly-once] @C19 ghost.forwards == old(ghost.forwards) + 1
+//@   ensures[status-transparent] @C19 statOK(cmdStat(ghost.lastCmd)) || statCode(cmdStat(ghost.lastCmd)) >= 200 || statCode(cmdStat(ghost.lastCmd)) <= 99 ==> result.1 == cmdStat(ghost.lastCmd)
+//@   ensures[connection-failure-is-bad-gateway] @C19 !statOK(cmdStat(ghost.lastCmd)) && statCode(cmdStat(ghost.lastCmd)) < 200 && statCode(cmdStat(ghost.lastCmd)) > 99 ==> statCode(result.1) == erpc.CodeBadGateway && result.1 != cmdStat(ghost.lastCmd)
 //@ func (*proxy).push
-//@   property C15
+//@   property C15 C19
+//@   flags safety libframe
+//@   requires @C19 p.pushForwarder != nil && ctx != nil
+//@   ensures[forwarded-exactly-once] @C19 ghost.forwards == old(ghost.forwards) + 1
+
+// ---- C19: the proxy is transparent --------------------------------------------------
+// The proxied request is forwarded exactly once; what comes back (body bytes,
+// status) is handed to the caller unchanged, except that a connection-level
+// failure (codes 100..199) of the backend call becomes a fresh 502 status.
+// Nothing in the handler may panic: a panic would reach the caller as 500.
+//@ ghost global forwards int
+//@ ghost global lastCmd iface
+//@ spec fn cmdStat(c iface) *status.Status
+//@ iface plugin/proxy.CallForwarder.Call
+//@   params self uri arg res setting
+//@   flags libframe
+//@   modifies ghost.forwards, ghost.lastCmd
+//@   ghostset ghost.forwards = old(ghost.forwards) + 1
+//@   ghostset ghost.lastCmd = result
+//@   ensures[returns-a-command] result != nil
+//@ iface plugin/proxy.PushForwarder.Push
+//@   flags libframe
+//@   modifies ghost.forwards
+//@   ghostset ghost.forwards = old(ghost.forwards) + 1
+//@ iface dynamic:func(*plugin/proxy.Label) plugin/proxy.CallForwarder
+//@   flags libframe
+//@   ensures result != nil
+//@ iface dynamic:func(*plugin/proxy.Label) plugin/proxy.PushForwarder
+//@   flags libframe
+//@   ensures result != nil
+//@ iface erpc.CallCmd.Status
+//@   modifies nothing
+//@   ensures result == cmdStat(self)
+// (no reply received: the reply metadata of a call command is nil)
+//@ iface erpc.CallCmd.InputMeta
+//@   modifies nothing
+//@ iface dynamic:func(key string, value string) socket.MessageSetting
+//@   flags pure
+//@ iface erpc.CtxSession.ID
+//@   flags pure
+//@ iface erpc.UnknownCallCtx.IP
+//@   flags pure
+//@ iface erpc.UnknownCallCtx.InputBodyBytes
+//@   flags pure
+//@ iface erpc.UnknownCallCtx.PeekMeta
+//@   flags pure
+//@ iface erpc.UnknownCallCtx.ServiceMethod
+//@   flags pure
+//@ iface erpc.UnknownCallCtx.Session
+//@   flags pure
+//@   ensures result != nil
+//@ iface erpc.UnknownCallCtx.VisitMeta
+//@   flags libframe
+//@ iface erpc.UnknownCallCtx.SetMeta
+//@   flags libframe
+//@ iface erpc.UnknownPushCtx.IP
+//@   flags pure
+//@ iface erpc.UnknownPushCtx.InputBodyBytes
+//@   flags pure
+//@ iface erpc.UnknownPushCtx.PeekMeta
+//@   flags pure
+//@ iface erpc.UnknownPushCtx.ServiceMethod
+//@   flags pure
+//@ iface erpc.UnknownPushCtx.Session
+//@   flags pure
+//@   ensures result != nil
+//@ iface erpc.UnknownPushCtx.VisitMeta
+//@   flags libframe
+//@ trusted utils.visitArgs
+//@   flags libframe
